@@ -455,6 +455,59 @@ def _markov_product_rule(prog: Program, col: Collector, refs: Refs, cat):
     col.cur.analysed["markov_rule_sites"] = n
 
 
+def _drop_maps_share_an_order(prog: Program, col: Collector, refs: Refs):
+    """A state pair (prev, curr) is contracted by renaming `curr` of the earlier factor and `prev` of the later factor to the same
+    auxiliary name.  The two renamings are built by zipping the previous names and the current names with one tuple of auxiliary names;
+    the i-th previous and the i-th current name belong to the same pair only when both sequences come from one ordering of the pairs."""
+    for f in prog.funcs.values():
+        if isinstance(f.node, ast.Lambda) or f.module.name != "funsor.sum_product":
+            continue
+        zips = []
+        for st in walk_no_nested(f.node):
+            if isinstance(st, ast.Assign) and len(st.targets) == 1 and isinstance(st.targets[0], ast.Name) and isinstance(st.value, ast.Call) and norm(st.value.func) in ("dict", "OrderedDict") \
+                    and st.value.args and isinstance(st.value.args[0], ast.Call) and norm(st.value.args[0].func) == "zip" and len(st.value.args[0].args) == 2:
+                zips.append(st)
+        by_aux = {}
+        for st in zips:
+            by_aux.setdefault(norm(st.value.args[0].args[1]), []).append(st)
+        for aux, sts in by_aux.items():
+            if len(sts) != 2:
+                continue
+            sts = sorted(sts, key=lambda s_: s_.lineno)
+
+            def side(e):
+                # ("keys" | "values", mapping name, ordered?)  or None
+                if isinstance(e, ast.Call) and isinstance(e.func, ast.Attribute) and e.func.attr in ("keys", "values") and isinstance(e.func.value, ast.Name) and not e.args:
+                    return e.func.attr, e.func.value.id, "mapping order"
+                if isinstance(e, ast.Name):
+                    return "keys", e.id, "mapping order"
+                if isinstance(e, ast.Call) and isinstance(e.func, ast.Name) and e.func.id in ("sorted", "reversed", "set", "frozenset") and len(e.args) >= 1:
+                    inner = side(e.args[0])
+                    if inner is not None:
+                        return inner[0], inner[1], e.func.id
+                if isinstance(e, (ast.ListComp, ast.GeneratorExp)) and len(e.generators) == 1 and isinstance(e.generators[0].target, ast.Tuple) and len(e.generators[0].target.elts) == 2 \
+                        and isinstance(e.elt, ast.Name) and not e.generators[0].ifs:
+                    k_, v_ = (norm(x) for x in e.generators[0].target.elts)
+                    which = "keys" if e.elt.id == k_ else "values" if e.elt.id == v_ else None
+                    if which:
+                        it = norm(e.generators[0].iter)
+                        return which, it[:-len(".items()")] if it.endswith(".items()") else it, "mapping order"
+                return None
+
+            a, b = side(sts[0].value.args[0].args[0]), side(sts[1].value.args[0].args[0])
+            construct = f"{f.fq}::{norm(sts[0].targets[0])} / {norm(sts[1].targets[0])}"
+            if a is None or b is None:
+                col.unresolved(construct, f"`{norm(sts[0].value)[:40]}` / `{norm(sts[1].value)[:40]}` not recognised", f.loc(sts[0]))
+            elif a[1] == b[1] and {a[0], b[0]} == {"keys", "values"} and a[2] == b[2] == "mapping order":
+                col.ok(construct, f"keys and values of `{a[1]}` in its own order, zipped with `{aux}`", f.loc(sts[0]))
+            elif {a[0], b[0]} == {"keys", "values"} and (a[2] != "mapping order" or b[2] != "mapping order"):
+                col.violation(construct, f"the previous names are taken as `{norm(sts[0].value.args[0].args[0])}` and the current names as `{norm(sts[1].value.args[0].args[0])}`: each "
+                              f"sequence is reordered on its own ({a[2]} / {b[2]}), so the i-th previous and the i-th current name need not belong to the same state pair "
+                              "({'a_prev': 'y', 'b_prev': 'x'}): the current state of one pair is contracted against the previous state of another", f.loc(sts[0]))
+            else:
+                col.unresolved(construct, f"the two renamings are built from `{a[1]}` ({a[0]}) and `{b[1]}` ({b[0]})", f.loc(sts[0]))
+
+
 def run(prog: Program, col: Collector, tier: str, refs: Optional[Refs] = None, cat: Optional[Catalogue] = None):
     refs = refs or Refs(prog)
     col.rule("R10.1", "parallel scan: pairs (2k, 2k+1), odd tail last, every step once, sizes consistent", floor=2)
@@ -468,6 +521,8 @@ def run(prog: Program, col: Collector, tier: str, refs: Optional[Refs] = None, c
     col.rule("R10.5", "eager MarkovProduct: scan with the state pairs, plain product over time, or the n-fold power of the product op", floor=4)
     cat = cat or Catalogue(prog, refs)
     _markov_product_rule(prog, col, refs, cat)
+    col.rule("R10.7", "the prev->drop and curr->drop renamings pair the i-th previous name and the i-th current name of ONE ordering of the state pairs", floor=2)
+    _drop_maps_share_an_order(prog, col, refs)
     # R10.6: the scan contracts through the log-einsum kernels for the (logaddexp, add) semiring (shared with C02 R02.11 / C15 R15.8)
     from . import numerics
     numerics.run(prog, col, refs, cat, rule_log="R10.6", rule_safe=None)
